@@ -12,7 +12,7 @@ warnings.simplefilter("ignore")
 NAMED = {"tab": 2, "enter": 3, "left": 4, "right": 5, "backspace": 6, "delete": 7, "up": 8, "down": 9,
          "home": 10, "end": 11}
 LAYOUT_KEYS = {"up", "down", "home", "end"}
-ERRN = {0: None, 1: "IndexError", 2: "ValueError", 3: "TypeError", 9: "RuntimeError"}
+ERRN = {0: None, 1: "IndexError", 2: "ValueError", 3: "TypeError", 9: "RuntimeError", 10: "UnicodeEncodeError"}
 ALLOWED = "0123456789ABCDEFGHIJKLMNOPQRSTUVWXYZ"
 
 WIDE, ACC, COMB = "世", "é", "́"
@@ -124,8 +124,8 @@ class Rows:
 
 class C10(core.Check):
     pid = "C10"
-    gen_modules = []
-    model_targets = ["theories/Model/Edit.vo"]
+    gen_modules = ["str_util", "wcwidth_table"]       # C11's translated decode_one arithmetic / width table (bytes model)
+    model_targets = ["theories/Model/EditBytes.vo"]
     prop_file = "theories/Properties/C10.v"
     extract_v = "Extract/C10X.v"
     allowed_axioms = set()
@@ -147,6 +147,9 @@ class C10(core.Check):
         "tools/driver/driver.ml (int <-> Z conversion, line I/O)",
         "hand-written model Model/Edit.v of edit.py, numedit.py and text_layout.calc_coords/calc_pos/calc_line_pos/"
         "shift_line (validated by the per-event correspondence, not proved against Python)",
+        "Model/EditBytes.v (bytes-mode wiring of Edit.keypress and the coordinate maps) over C11's Model/Width.v "
+        "(str_util on bytes; decode_one arithmetic and width lookup re-translated by py2v every run) and C11's "
+        "Proofs/Utf8Proofs.v, Base/Utf8.v (utf8_encode / strict_decode = CPython's codec: validated by C11's check)",
         "the layout structures, character widths and str.upper / str.lower values sent to the model are those computed by the "
         "implementation (StandardTextLayout.layout, str_util.get_char_width, str.upper, str.lower): layout correctness is C03's, "
         "width arithmetic C11's",
@@ -154,7 +157,13 @@ class C10(core.Check):
         "the rendered canvas)",
     ]
     assumptions = [
-        "str mode (code points) for the model and the theorems; bytes mode is judged by the oracle only",
+        "str mode (code points) for parts 1-2; part 3 is bytes mode under the utf8 byte encoding (Model/EditBytes.v over "
+        "C11's str_util model Model/Width.v, imported read-only); bytes mode under euc-jp / big5 / latin-1 is judged by "
+        "the oracle only",
+        "pos_on_char_boundary_inv: initial caption/text are UTF-8 encodings of scalar values and the offset is on a "
+        "character boundary; layouts carried by up/down/home/end/click cut the displayed text at character boundaries "
+        "(lay_bnd; counted on real layouts in the evidence: hyp:bytes-layout-*); set_edit_pos arguments designate a "
+        "boundary; for ill-formed text nothing is claimed (examples ill_formed_* show what happens)",
         "Edit.highlight is None (no Edit method sets it; checked by an AST scan of edit.py/numedit.py every run)",
         "the default command_map (left/right/up/down/home/end are the only cursor commands)",
         "mask is None or one character; width >= 1; non-empty key strings",
@@ -192,7 +201,16 @@ class C10(core.Check):
                   "bytes mode and other encodings (offset on a character boundary; oracle on a bytes stream), the drawn "
                   "canvas (cursor cell holds the character at the offset, rows() == canvas rows, render never raises), that real layouts have the assumed row shape "
                   "(counted), the preferred-column semantics of up/down beyond what the reference editor states; "
-                  "highlight is not covered.")
+                  "highlight is not covered.  "
+                  "BYTES MODE (utf8 byte encoding), part 3: pos_on_char_boundary_inv - for every event history from a UTF-8 "
+                  "caption/text with the offset on a character boundary, the text stays valid UTF-8 and both halves around "
+                  "the offset decode (the offset is never inside a multi-byte character): unconditional for printable / "
+                  "unencodable / unused keys, tab, enter, left, right, backspace, delete; for up/down/home/end/click under the "
+                  "hypothesis that the layout cuts at character boundaries (measured on real layouts); "
+                  "bytes_keys_simulate_reference - insert/enter/left/right/backspace/delete on bytes simulate the "
+                  "character-level reference editor through the boundary map boff (tab does not: its blank count uses the byte "
+                  "offset - recorded); C11's move_prev_char/move_next_char/calc_text_pos theorems are reused.  Tied by the "
+                  "per-event correspondence on the utf-8 bytes stream (exhaustive 1..4-byte characters + random).")
     level_note = ("Trusted: Coq kernel, extraction + OCaml driver, the hand-written model Model/Edit.v (tied to the code by "
                   "an exact per-event comparison of text, offset, return value, signals with their arguments and the text "
                   "at emission time, pref_col_maxcol and _shift_view_to_cursor), the layout / width / str.upper data taken "
@@ -342,11 +360,47 @@ class C10(core.Check):
         return self._trace(case)[0]
 
     # ------------------------------------------------------------------ model wire format
+    def _encode_events(self, case, lays):
+        l = []
+        for st, lay in zip(case["steps"], lays):
+            kind = st[0]
+            if kind == "key":
+                if st[1] in NAMED:
+                    l.append(NAMED[st[1]])
+                    if st[1] in LAYOUT_KEYS:
+                        l += [st[2]] + enc_layout(lay)
+                    else:
+                        l += [st[2], 0]
+                else:
+                    l += [1] + enc_list(cps(st[1])) + [st[2], 0]
+            elif kind == "click":
+                l += [13, st[1], st[2], st[3], st[4]] + enc_layout(lay)
+            elif kind == "render":
+                l += [14, int(bool(st[1])), st[2]] + enc_layout(lay)
+            elif kind == "prefcol":
+                l += [17, st[1]] + enc_layout(lay)
+            elif kind == "setpos":
+                l += [15, st[1]]
+        return l
+
     def encode(self, case):
-        if case.get("bytes"):
-            raise core.MachineryError("bytes cases are oracle-only")
-        from urwid import str_util
         _res, lays, _obs = self._trace(case)
+        if case.get("bytes"):
+            if case["enc"] != "utf-8" or case["variant"] != ["edit"] or case["mask"] is not None:
+                raise core.MachineryError("only utf-8 bytes cases of Edit have a model")
+            import wcwidth
+            l = [100] + enc_list(list(case["caption"].encode("utf-8"))) + enc_list(list(case["text"].encode("utf-8")))
+            l += enc_oz(case["pos"]) + [int(case["multiline"]), int(case["allow_tab"])]
+            chars = set(case["caption"]) | set(case["text"]) | {"?"}
+            for st in case["steps"]:
+                if st[0] == "key" and st[1] not in NAMED:
+                    chars |= set(st[1])
+            chars = sorted(chars)
+            l.append(len(chars))
+            for c in chars:
+                l += [ord(c), wcwidth.wcwidth(c)]
+            return l + self._encode_events(case, lays)
+        from urwid import str_util
         v = case["variant"]
         if v[0] == "edit":
             l = [0]
@@ -379,26 +433,7 @@ class C10(core.Check):
         l.append(len(lows))
         for u in lows:
             l += enc_list(cps(u)) + enc_list(cps(u.lower()))
-        for st, lay in zip(case["steps"], lays):
-            kind = st[0]
-            if kind == "key":
-                if st[1] in NAMED:
-                    l.append(NAMED[st[1]])
-                    if st[1] in LAYOUT_KEYS:
-                        l += [st[2]] + enc_layout(lay)
-                    else:
-                        l += [st[2], 0]
-                else:
-                    l += [1] + enc_list(cps(st[1])) + [st[2], 0]
-            elif kind == "click":
-                l += [13, st[1], st[2], st[3], st[4]] + enc_layout(lay)
-            elif kind == "render":
-                l += [14, int(bool(st[1])), st[2]] + enc_layout(lay)
-            elif kind == "prefcol":
-                l += [17, st[1]] + enc_layout(lay)
-            elif kind == "setpos":
-                l += [15, st[1]]
-        return l
+        return l + self._encode_events(case, lays)
 
     def decode(self, case, ints):
         it = iter(ints)
@@ -870,6 +905,8 @@ class C10(core.Check):
 
     # ------------------------------------------------------------------ bookkeeping
     def nontrivial(self, case, res):
+        if case.get("bytes"):
+            return self.nontrivial_bytes(case, res)
         t, p = cps(case["text"]), case["pos"]
         for so in res["steps"]:
             if so["text"] != t or (p is not None and so["pos"] != p) or so["sigs"]:
@@ -904,6 +941,32 @@ class C10(core.Check):
                 inc("raised:" + so["err"])
             if so["sigs"]:
                 inc("signal-pairs", len(so["sigs"]) // 2)
+        # how often the hypothesis of pos_on_char_boundary_inv (the layout cuts the text at character
+        # boundaries: lay_bnd) holds on real layouts of utf-8 bytes text: an observation, not a verdict
+        if case.get("bytes") and case.get("enc") == "utf-8":
+            _r, lays, obs = self._trace(case)
+            for st, lay, ob in zip(case["steps"], lays, obs):
+                if lay is not None and (st[0] == "click" or (st[0] == "key" and st[1] in LAYOUT_KEYS)):
+                    disp = bytes(ob.get("disp", []))
+                    ok = True
+                    try:
+                        disp.decode("utf-8")
+                    except UnicodeDecodeError:
+                        continue
+                    for ln in lay:
+                        for seg in ln:
+                            offs = []
+                            if len(seg) >= 2 and seg[1] is not None:
+                                offs.append(seg[1])
+                            if len(seg) == 3 and isinstance(seg[2], int):
+                                offs.append(seg[2])
+                            for o in offs:
+                                try:
+                                    disp[:o].decode("utf-8")
+                                    disp[o:].decode("utf-8")
+                                except UnicodeDecodeError:
+                                    ok = False
+                    inc("hyp:bytes-layout-cuts-at-character-boundaries(lay_bnd)" if ok else "hyp:bytes-layout-NOT-at-character-boundaries")
         # how often the hypotheses of the part-2 theorems (Properties/C10.v) hold on real layouts:
         # observations, not verdicts
         if not case.get("bytes"):
@@ -1047,6 +1110,10 @@ class C10(core.Check):
             yield self.random_edit_case(rng, rng.choice([4, 8, 12, 20]))
         for _ in range(1500 if quick else 10000):
             yield self.random_num_case(rng, rng.choice([4, 8, 14]))
+        # bytes mode under utf-8: model (Model/EditBytes.v) + oracle
+        yield from self.exhaustive_bytes_cases(3 if quick else 4)
+        for _ in range(400 if quick else 4000):
+            yield self.bytes_case(rng, "utf-8")
 
     def search_cases(self, rng, tier):
         while True:
@@ -1123,11 +1190,11 @@ class C10(core.Check):
 
     def extra_checks(self, tier, rng, ev):
         out = []
-        # 1. bytes mode / other encodings: oracle only (offset range, character boundary, reference editor)
-        n = 750 if tier == "quick" else 6000
-        stream = [self.bytes_case(rng, enc) for enc in ("utf-8", "utf-8", "utf-8", "euc-jp", "big5", "latin-1")
-                  for _ in range(n // 6)]
-        for c in itertools.chain(self.exhaustive_bytes_cases(3 if tier == "quick" else 4), stream):
+        # 1. bytes mode under the other encodings: oracle only (offset range, character boundary, reference editor);
+        #    utf-8 bytes cases are ordinary cases (model + oracle)
+        n = 375 if tier == "quick" else 3000
+        stream = [self.bytes_case(rng, enc) for enc in ("euc-jp", "big5", "latin-1") for _ in range(n // 3)]
+        for c in stream:
             if True:
                 res = self.run_impl(c)
                 ev["evaluations"] += 1
